@@ -43,6 +43,39 @@ def load_known(prop_id):
     return out
 
 
+def run_fuzz(targets, seed, outdir, env):
+    """atheris campaigns: {target module: runs per shard}; 8 shards each, empty corpus, -seed derived from VERIF_SEED.
+    Returns (stats, [case files for replay])."""
+    import re
+    fz = os.path.join(outdir, 'fuzz')
+    os.makedirs(fz, exist_ok=True)
+    fenv = dict(env, FUZZ_OUT=fz)
+    procs = []
+    for t, runs in targets.items():
+        for i in range(8):
+            cdir = os.path.join(fz, f'{t}-{i}')
+            os.makedirs(cdir, exist_ok=True)
+            log = open(os.path.join(fz, f'{t}-{i}.log'), 'w')
+            # each shard writes its failing input into its own directory
+            procs.append((t, i, subprocess.Popen(
+                [sys.executable, os.path.join(VERIF, 'vf', 'fuzz', t + '.py'), f'-runs={runs}',
+                 f'-seed={seed * 100 + i + 1}', cdir], cwd=VERIF, env=dict(fenv, FUZZ_OUT=cdir),
+                stdout=log, stderr=subprocess.STDOUT)))
+    stats = {'runs_per_shard': dict(targets), 'shards': 8, 'executions': 0, 'crashing_inputs': 0, 'edges_covered': {}}
+    files = []
+    for t, i, p in procs:
+        p.wait()
+        txt = open(os.path.join(fz, f'{t}-{i}.log'), errors='replace').read()
+        m = re.findall(r"#(\d+)\s+(?:DONE|pulse|NEW|REDUCE)\s+cov: (\d+)", txt)
+        if m:
+            stats['executions'] += int(m[-1][0])
+            stats['edges_covered'][t] = max(stats['edges_covered'].get(t, 0), int(m[-1][1]))
+        for f in glob.glob(os.path.join(fz, f'{t}-{i}', 'failing-*.json')):
+            stats['crashing_inputs'] += 1
+            files.append(f)
+    return stats, files
+
+
 def main():
     ap = argparse.ArgumentParser()
     ap.add_argument('prop')
@@ -55,6 +88,7 @@ def main():
     tier = 'thorough' if args.tier.startswith('t') else 'quick'
     seed = int(os.environ.get('VERIF_SEED', '0') or 0)
     t0 = time.time()
+    fuzz_stats = None
 
     mod = importlib.import_module('vf.props.' + pid.lower())
     prop = mod.PROP
@@ -75,6 +109,11 @@ def main():
         else:
             nsh = max(1, args.shards)
             corpus = sorted(glob.glob(os.path.join(VERIF, 'corpus', pid, '*.json')))
+            if tier == 'thorough' and getattr(prop, 'fuzz_targets', None):
+                # coverage-guided campaign first; inputs that trip the in-target oracle are replayed through the
+                # property's own run() below (shard 0), so a libFuzzer crash alone never decides anything
+                fuzz_stats, crash_files = run_fuzz(prop.fuzz_targets, seed, outdir, env)
+                corpus = corpus + crash_files
             for i in range(nsh):
                 cmd = [sys.executable, '-m', 'vf.worker', pid, '--tier', tier, '--shard', str(i), '--nshards',
                        str(nsh), '--out', outdir, '--known', json.dumps(known_sigs)]
@@ -187,7 +226,7 @@ def main():
                 'corpus_replays': len(merged['replays']),
                 'shards': nsh,
                 'technique': prop.technique,
-                'extra': merged['extra'],
+                'extra': dict(merged['extra'], **({'atheris': fuzz_stats} if fuzz_stats else {})),
             },
             'assumptions': list(prop.assumptions),
             'wall_s': wall,
